@@ -7,6 +7,7 @@ The BareScript runtime
 
 import datetime
 import functools
+import operator
 
 from .library import DEFAULT_MAX_STATEMENTS, EXPRESSION_FUNCTIONS, SCRIPT_FUNCTIONS
 from .model import lint_script
@@ -270,7 +271,7 @@ def evaluate_expression(expr, options=None, locals_=None, builtins=True):
         if bin_op == '+':
             # number + number
             if isinstance(left_value, (int, float)) and isinstance(right_value, (int, float)):
-                return left_value + right_value
+                return _arithmetic(operator.add, left_value, right_value)
 
             # string + string
             elif isinstance(left_value, str) and isinstance(right_value, str):
@@ -285,15 +286,15 @@ def evaluate_expression(expr, options=None, locals_=None, builtins=True):
             # datetime + number
             elif isinstance(left_value, datetime.date) and isinstance(right_value, (int, float)):
                 left_dt = value_normalize_datetime(left_value)
-                return left_dt + datetime.timedelta(milliseconds=right_value)
+                return _arithmetic(_datetime_add, left_dt, right_value)
             elif isinstance(left_value, (int, float)) and isinstance(right_value, datetime.date):
                 right_dt = value_normalize_datetime(right_value)
-                return right_dt + datetime.timedelta(milliseconds=left_value)
+                return _arithmetic(_datetime_add, right_dt, left_value)
 
         elif bin_op == '-':
             # number - number
             if isinstance(left_value, (int, float)) and isinstance(right_value, (int, float)):
-                return left_value - right_value
+                return _arithmetic(operator.sub, left_value, right_value)
 
             # datetime - datetime
             elif isinstance(left_value, datetime.date) and isinstance(right_value, datetime.date):
@@ -304,12 +305,12 @@ def evaluate_expression(expr, options=None, locals_=None, builtins=True):
         elif bin_op == '*':
             # number * number
             if isinstance(left_value, (int, float)) and isinstance(right_value, (int, float)):
-                return left_value * right_value
+                return _arithmetic(operator.mul, left_value, right_value)
 
         elif bin_op == '/':
             # number / number
             if isinstance(left_value, (int, float)) and isinstance(right_value, (int, float)):
-                return left_value / right_value
+                return _arithmetic(operator.truediv, left_value, right_value)
 
         elif bin_op == '==':
             return value_compare(left_value, right_value) == 0
@@ -332,12 +333,12 @@ def evaluate_expression(expr, options=None, locals_=None, builtins=True):
         elif bin_op == '%':
             # number % number
             if isinstance(left_value, (int, float)) and isinstance(right_value, (int, float)):
-                return left_value % right_value
+                return _arithmetic(operator.mod, left_value, right_value)
 
         else: # bin_op == '**'
             # number ** number
             if isinstance(left_value, (int, float)) and isinstance(right_value, (int, float)):
-                return left_value ** right_value
+                return _arithmetic(operator.pow, left_value, right_value)
 
         # Invalid operation values
         return None
@@ -357,6 +358,20 @@ def evaluate_expression(expr, options=None, locals_=None, builtins=True):
     # Expression group
     # expr_key == 'group'
     return evaluate_expression(expr['group'], options, locals_, builtins)
+
+
+# Helper to perform an arithmetic operation - arithmetic errors (e.g. division by zero, overflow) yield null
+def _arithmetic(operation, left_value, right_value):
+    try:
+        result = operation(left_value, right_value)
+    except (ArithmeticError, ValueError):
+        return None
+    return None if isinstance(result, complex) else result
+
+
+# Helper to add a number of milliseconds to a datetime
+def _datetime_add(datetime_, milliseconds):
+    return datetime_ + datetime.timedelta(milliseconds=milliseconds)
 
 
 class BareScriptRuntimeError(Exception):
